@@ -145,10 +145,27 @@ P1 = [
     (r"[a-z]{0}[0-9]+", "UseCompositeSearcher", "q"),
     (r".*?\.tx", "UseReverseSuffix", "q"),
     (r"[0-5]+\.\d+", "UseDigitPrefilter", "q"),
-    (r"^(\d+|UU*|he)", "UseBranchDispatch", "q cap"),
+    (r"^(\d+|UU*|he)", "UseBoundedBacktracker", "q cap"),   # was UseBranchDispatch before fix 948b602
+    (r"^(\d+|UUID|hex32)", "UseBranchDispatch", "q cap"),
+    (r"^(foo|bar|baz)", "UseBranchDispatch", "cap"),
+    # --- suffix-set / suffix searchers on several matches and lines (fix 590cbe6, 53bd80b)
+    (r"[a-z]+\.(tx|lo|md)", "UseReverseSuffixSet", "q"),
+    (r"[a-z.]+\.(tx|lo|md)", "UseReverseSuffixSet", "q"),
+    (r"(?s).*ab", "UseReverseSuffix", "q"),
+    (r".+co.+", "UseReverseInner", "q"),
+    (r".*co[0-9]+", "UseReverseInner", "q"),             # greedy prefix over a later inner literal (fix cba9df1)
+    (r".+a", "UseReverseSuffix", "q cap"),               # guard of the limited reverse search (fix bb986bd)
+    (r"[a-z]+a", "UseReverseSuffix", "q"),
     (r"\d{2}:\d{2}", "UseDigitPrefilter", "q"),
     (r"[a-z]+(?:\b-){1,2}en", "UseNFA", ""),
     (r"\d:\d", "UseDigitPrefilter", "q"),               # bounded leading digit class (no digit-run skipping allowed)
+    # --- literal alternations next to assertions (prefilter may only be a candidate generator here)
+    (r"\b(foo|bar)", "UseNFA", "q lit"),
+    (r"(foo|bar)\b", "UseNFA", "lit"),
+    (r"\Bfoo|\Bbar", "UseNFA", "lit"),
+    # --- longest mode: shorter alternative is a proper prefix of a longer one that needs two more bytes
+    (r"(aa|aaab)", "UseDFA", "q cap"),
+    (r"an|anan|banana", "UseDFA", ""),
 ]
 
 # Patterns whose language involves "any character" constructs: the pinned tree
@@ -188,8 +205,8 @@ WINDOWS = {
     r"[a-z]+co[a-z]+": [("ac", ""), ("a", "a")],
     r"\w+@\w+\.\w+": [("a@", ""), ("a", "b.c")],
     r"[a-z]+\.tx": [("a", "x"), ("", "tx")],
-    r".*\.(tx|lo|md)": [("a.", ""), ("", "d")],
-    r"^ab$": [("a", ""), ("", "")],
+    r".*\.(tx|lo|md)": [("a.", ""), ("", "d"), ("a.tx\n", ".lo"), ("a.tx", ".lo")],
+    r"^ab$": [("a", ""), ("", "b")],
     r"(\d+)-(\d+)": [("1", ""), ("", "2")],
     r"\d+\.\d+": [("1", ""), ("", "5")],
     r"foo|bar": [("f", ""), ("xb", "")],
@@ -198,7 +215,19 @@ WINDOWS = {
     r"[a-c]+aa[a-c]+": [("a", ""), ("", "a")],
     r"^(ab|cd|ef)": [("", "x")],
     r"^a.*c$": [("a", "")],
-    r".*co.*": [("c", "")],
+    r"(aa|aaab)": [("a", ""), ("xa", "")],
+    r"\b(foo|bar)": [("x", ""), ("", "x"), (" ", "")],
+    r"(foo|bar)\b": [("", "x"), ("x", "")],
+    r"\Bfoo|\Bbar": [("x", ""), ("", "")],
+    r".*co.*": [("c", ""), ("co\n", ""), ("", "\nco")],
+    r".*\.tx": [("a.tx\n", ".tx"), ("", "\nb.tx"), ("a.tx", "\nb.tx")],
+    r"[a-z]+\.(tx|lo|md)": [("a.tx ", ".lo"), ("a", ".tx"), ("a.tx b", "")],
+    r"[a-z.]+\.(tx|lo|md)": [("a.tx", ".lo"), ("a.tx.lo ", ".md")],
+    r"(?s).*ab": [("\n", "b"), ("x\ny a", "")],
+    r".+co.+": [("co", ""), ("", "co"), ("c", "a")],
+    r".*co[0-9]+": [("xco1 ", ""), ("co1 ", "2"), ("", "o1")],
+    r"^(\d+|UUID|hex32)": [("UUI", ""), ("hex", ""), ("1", "")],
+    r"^(foo|bar|baz)": [("ba", ""), ("f", "")],
 }
 
 
